@@ -24,6 +24,12 @@ CHECKS = {
  "C04": dict(cat="other", tech="abstract interpretation of optimised LLVM IR; bitwise/shift/rotate normal forms, x86 shift intrinsics by SDM saturation semantics, every compile-time amount enumerated",
    text="& | ^ ~, shifts by scalar / per-lane vector / compile-time amount (every S in [0,bits]) and rotations (compile-time amounts up to 2*bits+3, run-time scalar and per-lane) of every integer vector type x configuration must normalise to the saturating shift / funnel-shift closed form of the same lane; amounts are constrained to the documented domain by the argument encoding.",
    note=TB + "; shift amounts assumed in [0, 2*bits) (superset of the documented [0,bits])", ref="4/C04"),
+ "C06": dict(cat="other", tech="abstract interpretation of optimised LLVM IR; ctpop/ctlz/cttz/bswap primitive forms and byte provenance; poison (zero-undef, over-wide shift) reachable on a valid input is a refutation",
+   text="popcount, countl/r_zero/one, bit_width, has_single_bit, countl_sign are decided where the build's ISA gives the primitive (LZCNT/BMI/POPCNT/AVX-512CD/VPOPCNTDQ/BITALG) by normal form; byteswap is decided for all types by byte provenance; emulated versions are compared as closed forms against the <bit> definition (REFUTED with a witness when they are fully interpreted and differ, otherwise UNDECIDED and listed).",
+   note=TB + "; emulations built on float-exponent tricks / nibble lookup are listed UNDECIDED, not covered", ref="4/C06"),
+ "C07": dict(cat="other", tech="abstract interpretation of optimised LLVM IR; select/min/max/abs/sign-bit normal forms; ordered-case table for float min/max",
+   text="blend/keep/clear (select on the mask lane, operand order), integer min/max/minmax/clamp (predicate of the type's signedness), abs/neg_abs/negate (no nsw: abs(MIN) is MIN's pattern), float abs/neg_abs/negate/copysign (sign bit only), float min/max (picks smaller/larger operand in both strict orderings) are decided for every type x configuration; average/midpoint emulations are compared as closed forms (witness-refutable, else UNDECIDED).",
+   note=TB + "; clamp witnesses restricted to lo<hi; float min/max only for ordered inputs as the statement scopes it", ref="4/C07"),
 }
 
 NA = {
